@@ -68,4 +68,11 @@ def classicStartModelB (inst : Instance) (s : State) : Bool :=
 def classicFuelB (inst : Instance) (fuel : Nat) : Bool :=
   decide (3 * inst.machines.length + 5 * inst.transports.length + 2 ≤ fuel)
 
+/-- the fuel hypothesis of `ClassicRunEarly` (either value of `allowEarly`) -/
+def classicFuelEarlyB (inst : Instance) (fuel : Nat) : Bool :=
+  decide (6 * inst.machines.length + 11 * inst.transports.length + 2 ≤ fuel)
+
+/-- at least as many AGVs as jobs (what the compiler creates when the document has no logistics section) -/
+def enoughAgvsB (inst : Instance) : Bool := decide (inst.jobs.length ≤ inst.transports.length)
+
 end JSL
